@@ -306,3 +306,61 @@ def check_simple_queue_put(with_reducer: bool, has_wlock: bool, send_fails: bool
         return sent == []
     back = pickle.loads(sent[0])
     return back == (("B", v) if with_reducer else (v, "plain")) and len(sent) == 1
+
+
+def check_reducers_history_2(backend: int, tags: List[int], modes: List[int]) -> bool:
+    """
+    pre: 0 <= backend <= 1
+    pre: len(tags) == 2 and len(modes) == len(tags)
+    pre: all(0 <= t <= 1 for t in tags) and all(0 <= m <= 2 for m in modes)
+    post: _
+    """
+    return _reducers_history(backend, tags, modes)
+
+
+def check_reducers_history_3(backend: int, tags: List[int], modes: List[int]) -> bool:
+    """
+    pre: 0 <= backend <= 1
+    pre: 2 <= len(tags) <= 3 and len(modes) == len(tags)
+    pre: all(0 <= t <= 1 for t in tags) and all(0 <= m <= 2 for m in modes)
+    post: _
+    """
+    return _reducers_history(backend, tags, modes)
+
+
+def _reducers_history(backend, tags, modes):
+    # 'scoped to where it was requested' over a *history* of requests: what a pickler applies is the reducers mapping
+    # it was given, as it is when the pickler is built - not what an earlier pickler was given through the same dict
+    # object (mode 1: the caller replaced the function for a type it had registered before), through another dict that
+    # now lives at the same address (mode 0: the earlier mapping was dropped first; CPython reuses the slot), or
+    # through an equal-keyed mapping (mode 2: both alive).
+    backend = _conc(backend, 1)
+    tags = [_conc(t, 1) for t in tags]
+    modes = [_conc(m, 2) for m in modes]
+    saved = red._loky_pickler_name
+    red.set_loky_pickler(["cloudpickle", "pickle"][backend])
+    ok = True
+    keep = []
+    try:
+        d = None
+        for t, m in zip(tags, modes):
+            f = _R[(_T1, "AB"[t])]
+            if d is None or m == 2:
+                keep.append(d)
+                d = {_T1: f}
+            elif m == 1:
+                d[_T1] = f
+            else:
+                del d
+                d = {_T1: f}
+            out = pickle.loads(red.dumps(_T1(5), reducers=d))
+            ok = ok and out == ("AB"[t], 5)
+            import io
+            P = red.get_loky_pickler()(io.BytesIO(), reducers=d)
+            ok = ok and P.dispatch_table.get(_T1) is f
+            # without reducers nothing of the history is visible
+            plain = pickle.loads(red.dumps(_T1(6)))
+            ok = ok and isinstance(plain, _T1) and plain.v == 6
+    finally:
+        red.set_loky_pickler(saved)
+    return ok
